@@ -445,7 +445,8 @@ func (p *JoinAcceptPayload) UnmarshalBinary(uplink bool, data []byte) error {
 	if err := p.DLSettings.UnmarshalBinary(data[10:11]); err != nil {
 		return err
 	}
-	p.RXDelay = uint8(data[11])
+	// the 4 most significant bits are RFU
+	p.RXDelay = uint8(data[11]) & 0x0f
 
 	p.CFList = nil
 	if l == 28 {
